@@ -264,6 +264,105 @@ theorem testBit_setMask1 (value mask : Nat) (g : Glyph) (hm : mask < W32) (hg : 
     have h2 : g.mask.testBit k = false := testBit_false_of_lt hg' (by omega)
     simp [hk, h1, h2]
 
+/-! ### dedup_feature_infos: sorted, then strictly increasing tags -/
+
+theorem lexLe_trans : ∀ (a b c : List Nat), lexLe a b = true → lexLe b c = true → lexLe a c = true
+  | [], _, _, _, _ => by simp [lexLe]
+  | _ :: _, [], _, h, _ => by simp [lexLe] at h
+  | _ :: _, _ :: _, [], _, h => by simp [lexLe] at h
+  | x :: xs, y :: ys, z :: zs, h1, h2 => by
+    simp only [lexLe, Bool.or_eq_true, Bool.and_eq_true, decide_eq_true_eq, beq_iff_eq] at *
+    rcases h1 with h1 | ⟨h1, h1'⟩ <;> rcases h2 with h2 | ⟨h2, h2'⟩
+    · exact Or.inl (by omega)
+    · exact Or.inl (by omega)
+    · exact Or.inl (by omega)
+    · exact Or.inr ⟨by omega, lexLe_trans xs ys zs h1' h2'⟩
+
+theorem lexLe_total : ∀ (a b : List Nat), (lexLe a b || lexLe b a) = true
+  | [], _ => by simp [lexLe]
+  | _ :: _, [] => by simp [lexLe]
+  | x :: xs, y :: ys => by
+    have ih := lexLe_total xs ys
+    simp only [lexLe, Bool.or_eq_true, Bool.and_eq_true, decide_eq_true_eq, beq_iff_eq] at *
+    by_cases h1 : x < y
+    · exact Or.inl (Or.inl h1)
+    · by_cases h2 : y < x
+      · exact Or.inr (Or.inl h2)
+      · have : x = y := by omega
+        rcases ih with ih | ih
+        · exact Or.inl (Or.inr ⟨this, ih⟩)
+        · exact Or.inr (Or.inr ⟨this.symm, ih⟩)
+
+theorem mergeInfo_tag (c : Cfg) (j i : Info) : (mergeInfo c j i).tag = j.tag := by
+  unfold mergeInfo; split <;> (try split) <;> rfl
+
+theorem dedupLoop_sorted (c : Cfg) : ∀ (rest : List Info) (j : Info),
+    (∀ x ∈ rest, j.tag ≤ x.tag) → rest.Pairwise (fun a b => a.tag ≤ b.tag) →
+    (dedupLoop c j rest).Pairwise (fun a b => a.tag < b.tag) ∧ ∀ x ∈ dedupLoop c j rest, j.tag ≤ x.tag
+  | [], j, _, _ => by simp [dedupLoop]
+  | i :: rest, j, hj, hp => by
+    rw [List.pairwise_cons] at hp
+    unfold dedupLoop
+    split
+    · rename_i hne
+      have ih := dedupLoop_sorted c rest i hp.1 hp.2
+      have hji : j.tag < i.tag := by
+        have := hj i List.mem_cons_self; omega
+      refine ⟨List.pairwise_cons.2 ⟨fun x hx => by have := ih.2 x hx; omega, ih.1⟩, ?_⟩
+      intro x hx
+      rcases List.mem_cons.1 hx with h | h
+      · subst h; exact Nat.le_refl _
+      · have := ih.2 x h; omega
+    · have ih := dedupLoop_sorted c rest (mergeInfo c j i)
+        (fun x hx => by rw [mergeInfo_tag]; exact hj x (List.mem_cons_of_mem _ hx)) hp.2
+      rw [mergeInfo_tag] at ih
+      exact ih
+
+theorem dedupInfos_sorted (c : Cfg) (infos : List Info) :
+    (dedupInfos c false infos).Pairwise (fun a b => a.tag < b.tag) := by
+  unfold dedupInfos
+  simp only [Bool.false_eq_true, if_false]
+  have hs := List.pairwise_mergeSort (le := fun (a b : Info) => lexLe a.key b.key)
+    (fun a b c => lexLe_trans _ _ _) (fun a b => lexLe_total _ _) infos
+  have hs' : (infos.mergeSort (fun a b => lexLe a.key b.key)).Pairwise (fun a b => a.tag ≤ b.tag) := by
+    refine hs.imp ?_
+    intro a b h
+    simp only [Info.key, lexLe, Bool.or_eq_true, Bool.and_eq_true, decide_eq_true_eq, beq_iff_eq] at h
+    rcases h with h | h
+    · omega
+    · omega
+  cases hl : infos.mergeSort (fun a b => lexLe a.key b.key) with
+  | nil => simp
+  | cons x xs =>
+    rw [hl] at hs'
+    rw [List.pairwise_cons] at hs'
+    exact (dedupLoop_sorted c xs x hs'.1 hs'.2).1
+
+/-- the entries pushed by the allocation loop keep the order of the infos (a subsequence of their tags) -/
+theorem feats_sublist {c : Cfg} (font : Font) : ∀ (l : List Info) (st : Alloc),
+    ∃ extra : List FMap, (l.foldl (allocStep c font) st).feats = st.feats ++ extra ∧
+      (extra.map (·.tag)).Sublist (l.map (·.tag))
+  | [], st => ⟨[], by simp⟩
+  | x :: l, st => by
+    obtain ⟨extra, he, hs⟩ := feats_sublist font l (allocStep c font st x)
+    simp only [List.foldl_cons]
+    have hstep : (allocStep c font st x).feats = st.feats ∨
+        ∃ f, (allocStep c font st x).feats = st.feats ++ [f] ∧ f.tag = x.tag := by
+      unfold allocStep
+      split
+      · exact Or.inl rfl
+      · simp only []
+        split
+        · exact Or.inl rfl
+        · split
+          · exact Or.inr ⟨_, rfl, rfl⟩
+          · exact Or.inr ⟨_, rfl, rfl⟩
+    rcases hstep with h | ⟨f, h, ht⟩
+    · exact ⟨extra, by rw [he, h], by simpa using hs.cons _⟩
+    · refine ⟨f :: extra, by rw [he, h]; simp, ?_⟩
+      simp only [List.map_cons, ht]
+      exact hs.cons₂ _
+
 /-! ### reading a feature value back out of a glyph mask -/
 
 theorem recover_value (s b v : Nat) (g : Glyph) (hb : s + b ≤ 32) :
